@@ -13,6 +13,7 @@ import (
 	"github.com/taskctl/taskctl/internal/vh/common"
 	"github.com/taskctl/taskctl/pkg/output"
 	"github.com/taskctl/taskctl/pkg/runner"
+	"github.com/taskctl/taskctl/pkg/scheduler"
 	"github.com/taskctl/taskctl/pkg/task"
 )
 
@@ -175,6 +176,104 @@ func historyUnit(res *common.Result, target string, kmax, lmax int) {
 									if do(c) {
 										return
 									}
+								}
+							}
+						}
+					}
+				}
+			}
+		}
+	}
+	res.Nontrivial = int64(len(distinct))
+}
+
+// ---- C02 on the real runner: how a real task fails must not matter to failure propagation ----
+//
+// Pipeline a -> b plus an independent c; a's task is drawn from the task grammar (commands failing at
+// any position, allow_failure, before/after hooks succeeding or failing, condition, variations), b and
+// c are plain succeeding tasks. Whatever makes the reference model of the task report an error must
+// cancel b, leave c alone and make Schedule report an error; a skipped or succeeding a blocks nothing.
+
+func runPipe3(c TaskCase) (kind, desc string) {
+	var buf bytes.Buffer
+	r, err := runner.NewTaskRunner()
+	if err != nil {
+		return "infra", err.Error()
+	}
+	r.Stdout, r.Stderr, r.OutputFormat = &buf, io.Discard, output.FormatRaw
+	ta := buildTask(c)
+	ta.Name = "a"
+	tb := task.FromCommands("echo B-RAN")
+	tb.Name = "b"
+	tc := task.FromCommands("echo C-RAN")
+	tc.Name = "c"
+	sa := &scheduler.Stage{Name: "a", Task: ta}
+	sb := &scheduler.Stage{Name: "b", Task: tb, DependsOn: []string{"a"}}
+	sc := &scheduler.Stage{Name: "c", Task: tc}
+	g, err := scheduler.NewExecutionGraph(sa, sb, sc)
+	if err != nil {
+		return "infra", err.Error()
+	}
+	schedErr := scheduler.NewScheduler(r).Schedule(g)
+	e := model(c)
+	out := buf.String()
+	bRan, cRan := strings.Contains(out, "B-RAN"), strings.Contains(out, "C-RAN")
+	st := func(s *scheduler.Stage) int32 { return s.ReadStatus() }
+	switch {
+	case e.Err:
+		if st(sa) != scheduler.StatusError || st(sb) != scheduler.StatusCanceled || bRan {
+			return "propagation", fmt.Sprintf("task a failed (model) but stage a has status %d, its dependant b status %d (ran=%v)", st(sa), st(sb), bRan)
+		}
+		if schedErr == nil {
+			return "error-mismatch", "stage a failed without allow_failure but Schedule returned nil"
+		}
+	case e.Skipped:
+		// a task skipped by its own condition: the run reports no error and nothing is blocked
+		if schedErr != nil || !bRan || st(sb) != scheduler.StatusDone {
+			return "propagation", fmt.Sprintf("task a was skipped by its condition but Schedule returned %v, b status %d (ran=%v)", schedErr, st(sb), bRan)
+		}
+	default:
+		if schedErr != nil || st(sa) != scheduler.StatusDone || st(sb) != scheduler.StatusDone || !bRan {
+			return "propagation", fmt.Sprintf("task a succeeded (model) but Schedule returned %v, stage a status %d, b status %d (ran=%v)", schedErr, st(sa), st(sb), bRan)
+		}
+	}
+	if !cRan || st(sc) != scheduler.StatusDone {
+		return "independent-stage", fmt.Sprintf("the independent stage c has status %d (ran=%v)", st(sc), cRan)
+	}
+	return "", ""
+}
+
+func pipe3Unit(res *common.Result, target string) {
+	var idx int64
+	distinct := map[string]bool{}
+	for k := 1; k <= 2; k++ {
+		var vecs [][]int
+		forStatus(k, []int{0, 1}, func(st []int) { vecs = append(vecs, st) })
+		for _, st := range vecs {
+			for _, v := range []int{0, 2} {
+				for _, allow := range []bool{false, true} {
+					for _, b := range []string{"", "ok", "fail"} {
+						for _, a := range []string{"", "ok", "fail"} {
+							for _, cd := range []string{"", "true", "false"} {
+								c := TaskCase{Status: st, Variations: v, Allow: allow, Before: b, After: a, Cond: cd}
+								idx++
+								if !common.Mine(idx) {
+									continue
+								}
+								res.Evaluations++
+								if res.Evaluations%61 == 1 {
+									res.AddSample(c.String())
+								}
+								kind, d := runPipe3(c)
+								if kind == "infra" {
+									fmt.Fprintln(os.Stderr, d)
+									os.Exit(2)
+								}
+								e := model(c)
+								distinct[fmt.Sprint(e.Err, e.Skipped, st, b, a)] = true
+								if kind != "" && res.AddViolation(common.Violation{Property: target, Key: fmt.Sprintf("%s:real-%s|%s", target, kind, c), Desc: c.String() + ": " + d, Config: c},
+									map[string]interface{}{"harness": "taskrun", "mode": "plain", "property": target, "pipe3": c}) {
+									return
 								}
 							}
 						}
